@@ -32,8 +32,6 @@ Separate Extraction
   Readers.utf8_decode Readers.lines
   Writers.write_apx Writers.write_w Writers.write_bracket Writers.write_no Writers.write_status
   Writers.utf8_encode Writers.dec Writers.dec_nat Writers.parse_w Writers.parse_bracket
-  (* (new roots go above this line; the terminating period stays alone on the next line) *)
-.
   (* reference SAT solver, DIMACS text, SAT solver objects, pipe LTS (C15/C16, vdpll) *)
   Dpll.solve Dpll.solve_n Dpll.solve_answer
   Dimacs.parse_instance Dimacs.print_instance Dimacs.reply_parse Dimacs.print_reply Dimacs.render_sat
@@ -41,4 +39,6 @@ Separate Extraction
   SatObjects.cad_step SatObjects.buf_step SatObjects.cad_new SatObjects.buf_new SatObjects.run_obj
   SatObjects.vdpll_fn SatObjects.dpll_backend SatObjects.buf_instance SatObjects.verdict_of
   SatObjects.obs_of_reply SatObjects.clauses_of
-  Pipe.run_config Pipe.steps Pipe.init Pipe.stuck.
+  Pipe.run_config Pipe.steps Pipe.init Pipe.stuck
+  (* (new roots go above this line; the terminating period stays alone on the next line) *)
+.
